@@ -1509,6 +1509,49 @@ example (P : Iso3 ℚ) (m : ℚ) (he a b c : V3 ℚ) (r : ℚ) :
     (Glue.dispatchCP3 P (.segment a b) (.cone r r) m =
       Glue.closestPointsSmSm3 (fromShapes3 (DSh3.segment a b).loc ((DSh3.cone r r).posed P)) P m) := ⟨rfl, rfl, rfl⟩
 
+private theorem c10_copysign_eq (mag sgn : K) :
+    letI := fieldNum K sq
+    letI := fieldBits K
+    C10.copysign mag sgn = Dist.copysign mag sgn := by
+  letI := fieldNum K sq
+  letI := fieldBits K
+  simp only [C10.copysign, copysign, fieldNum_nabs, one_div, inv_lt_zero, or_self]
+
+/-- the dispatcher model's cuboid support map is the support map of the half-space theorems -/
+private theorem dsh_cuboid_posed (he : V3 K) (P : Iso3 K) (d : V3 K) :
+    letI := fieldNum K sq
+    letI := fieldBits K
+    (DSh3.cuboid he).posed P d = Dist.cuboidSupport he P d := by
+  letI := fieldNum K sq
+  letI := fieldBits K
+  simp only [DSh3.posed, DSh3.loc, C10.supportPoint3, C10.cuboidLocal3, Dist.cuboidSupport, Dist.cuboidLocalSupport, c10_copysign_eq sq]
+
+/-- **`query::closest_points(pos1, halfspace, pos2, cuboid, max_dist)` and `(pos1, cuboid, pos2, halfspace, max_dist)`, world
+space, no abstract hypothesis**: unit quaternions, unit normal, half-extents and `max_dist` `≥ 0`. Both orders answer (no panic)
+and the answer satisfies `WorldSpec` for the half-space `{n·p ≤ 0}` and the box `[-he, he]` placed by their poses
+(dispatcher routing, `inv_mul`, kernel, `Cuboid::support_point` = `copy_sign_to`, for the second order also `pos12.inverse()`
+and `.flipped()`, then `transform_by`). -/
+theorem closestPointsWorld3_halfspace_cuboid (pos1 pos2 : Iso3 K) (n he : V3 K) (m : K)
+    (h1 : C03.Unit3 pos1) (h2 : C03.Unit3 pos2) (hn : n.x * n.x + n.y * n.y + n.z * n.z = 1) (hm : 0 ≤ m)
+    (hhe : 0 ≤ he.x ∧ 0 ≤ he.y ∧ 0 ≤ he.z) :
+    letI := fieldNum K sq
+    letI := fieldBits K
+    (∃ w, Glue.closestPointsWorld3 pos1 (.halfspace n) pos2 (.cuboid he) m = some w ∧
+      WorldSpec sq (HalfAt n) (CubAt he) pos1 pos2 m w) ∧
+    (∃ w, Glue.closestPointsWorld3 pos1 (.cuboid he) pos2 (.halfspace n) m = some w ∧
+      WorldSpec sq (CubAt he) (HalfAt n) pos1 pos2 m w) := by
+  letI := fieldNum K sq
+  letI := fieldBits K
+  have hu : C03.Unit3 (pos1.invMul pos2) := C03.unit3_invMul sq pos1 pos2 h1 h2
+  have hui : C03.Unit3 (pos1.invMul pos2).inverse := C03.unit3_inverse sq _ hu
+  constructor
+  · refine closestPointsWorld3_halfspace_sm sq (CubAt he) pos1 pos2 n (.cuboid he) m h1 h2 hn hm rfl rfl ?_
+    rw [dsh_cuboid_posed]
+    exact cuboidSupport_supports sq he _ _ hhe hu
+  · refine closestPointsWorld3_sm_halfspace sq (CubAt he) pos1 pos2 n (.cuboid he) m h1 h2 hn hm rfl rfl ?_
+    rw [dsh_cuboid_posed]
+    exact cuboidSupport_supports sq he _ _ hhe hui
+
 end world
 
 /-- non-vacuity of the side conditions of the world theorems: two unit quaternions over `ℚ` (one far from the origin), a unit
